@@ -211,6 +211,18 @@ def search(ctx, boost=1, focus=()):
                     p["cy"], p["cx"] = float(rng.integers(0, p["sy"])), float(rng.integers(0, p["sx"]))
             ctx.count("with_history")
         cases.append(p)
+    # centres below / left of the frame with non-dyadic coordinates, image sizes just below a power of two (where size and
+    # size - centre fall into different binades: the rounding of such sums is what floating-point index ranges are built from)
+    for k in range(16 * boost):
+        top = int(rng.choice([8, 16, 32, 64]))
+        s_a = int(rng.integers(max(1, top - 4), top))
+        s_b = int(rng.integers(1, 40))
+        c_a = -float(np.round(rng.uniform(0.05, 5.0), int(rng.choice([1, 2, 3]))))
+        c_b = float(np.round(rng.uniform(-5, s_b + 5), 3))
+        q = gen_params(rng, k)
+        q.update({"sy": s_a, "sx": s_b, "cy": c_a, "cx": c_b} if k % 2 else {"sy": s_b, "sx": s_a, "cy": c_b, "cx": c_a})
+        cases.append(q)
+        ctx.count("centre_below_frame")
     for p in cases:
         ctx.oracle_case("radial_bins", p, run_case("radial_bins", p),
                         nontrivial=(p["cy"] != int(p["cy"]) or p["ri"] > 0 or p["n"] > 1))
